@@ -18,6 +18,14 @@ Proof. induction l; intros; cbn [strs_k str_k List.length]; [lia|]. specialize (
 Lemma len_aliases_k : forall l k, (len k <= len (aliases_k l k))%nat.
 Proof. induction l as [|[n [a|]] l IH]; intros; cbn [aliases_k str_k List.length]; [lia| |]; specialize (IH k); lia. Qed.
 
+Fixpoint size_gt (g : gens) : nat := match g with GNil => 0 | GCons t _ _ r => size_e t + size_gt r end%nat.
+Fixpoint size_gi (g : gens) : nat := match g with GNil => 0 | GCons _ i _ r => size_e i + size_gi r end%nat.
+Fixpoint size_gc (g : gens) : nat := match g with GNil => 0 | GCons _ _ c r => size_es c + size_gc r end%nat.
+Lemma size_gens_split : forall g, size_gens g = (size_gt g + size_gi g + size_gc g)%nat.
+Proof. induction g; cbn [size_gens size_gt size_gi size_gc]; lia. Qed.
+Lemma len_gasync_k : forall g k, (len k <= len (gasync_k g k))%nat.
+Proof. induction g as [|t i c r IH]; intros; cbn [gasync_k List.length]; [lia|]. specialize (IH k). lia. Qed.
+
 (* replace, outside-in, every `len (f x K)` of the goal by a fresh variable constrained by the matching lemma *)
 Ltac peel :=
   repeat (cbn [List.length];
@@ -33,6 +41,7 @@ Ltac peel :=
     | |- context [len (cmpidx_k ?a ?K)] => generalize (len_cmpidx_k a K); generalize (len (cmpidx_k a K)); intro
     | |- context [len (strs_k ?a ?K)] => generalize (len_strs_k a K); generalize (len (strs_k a K)); intro
     | |- context [len (aliases_k ?a ?K)] => generalize (len_aliases_k a K); generalize (len (aliases_k a K)); intro
+    | |- context [len (gasync_k ?a ?K)] => generalize (len_gasync_k a K); generalize (len (gasync_k a K)); intro
     end);
   cbn [List.length]; intros; lia.
 
@@ -55,12 +64,15 @@ Lemma emit_e_length_all :
   (forall c k, (size_cmps c + len k <= len (emit_cmps c k))%nat) /\
   (forall o k, (size_oe o + len k <= len (emit_oe o k))%nat) /\
   (forall d k, (size_dkeys d + len k <= len (emit_dkeys d k))%nat /\ (size_dvals d + len k <= len (emit_dvals d k))%nat) /\
-  (forall ps k, (size_params ps + len k <= len (emit_params ps k))%nat).
+  (forall ps k, (size_params ps + len k <= len (emit_params ps k))%nat) /\
+  (forall g k, (size_gt g + len k <= len (emit_gtargets g k))%nat /\ (size_gi g + len k <= len (emit_giters g k))%nat /\
+               (size_gc g + len k <= len (emit_gifs g k))%nat).
 Proof.
-  apply expr_all_mut; intros; split_IH; try split;
-    cbn [emit_e emit_es emit_args emit_cmps emit_oe emit_dkeys emit_dvals emit_params
-         size_e size_es size_args size_cmps size_oe size_dkeys size_dvals size_params];
-    rewrite ?size_ditems_split; unfold str_k, int_k, loc_k, nat_k; peel.
+  apply expr_all_mut; intros; split_IH; repeat split;
+    cbn [emit_e emit_es emit_args emit_cmps emit_oe emit_dkeys emit_dvals emit_params emit_gtargets emit_giters emit_gifs
+         size_e size_es size_args size_cmps size_oe size_dkeys size_dvals size_params size_gt size_gi size_gc];
+    rewrite ?size_ditems_split, ?size_gens_split; unfold str_k, int_k, loc_k, nat_k;
+    try match goal with |- context [match ?c with CList => _ | CSet => _ | CGen => _ end] => destruct c end; peel.
 Qed.
 
 Lemma emit_ty_length_all :
@@ -74,7 +86,7 @@ Definition Hty := proj1 emit_ty_length_all.
 Definition He := proj1 emit_e_length_all.
 Definition Hes := proj1 (proj2 emit_e_length_all).
 Definition Hoe := proj1 (proj2 (proj2 (proj2 (proj2 emit_e_length_all)))).
-Definition Hps := proj2 (proj2 (proj2 (proj2 (proj2 (proj2 emit_e_length_all))))).
+Definition Hps := proj1 (proj2 (proj2 (proj2 (proj2 (proj2 (proj2 emit_e_length_all)))))).
 
 Ltac with_expr_lemmas := pose proof He as He'; pose proof Hes as Hes'; pose proof Hoe as Hoe'; pose proof Hps as Hps'; pose proof Hty as Hty'.
 
